@@ -13,6 +13,8 @@ clock advances, changes of the environment flag, stop) — `run c {} ops`, no bo
 -/
 import EdzedModel.FsmTimer
 import EdzedProofs.FsmTimer
+import EdzedProofs.FsmTie
+import EdzedModel.Gen.TranslatedFsm
 import EdzedModel.Gen.Constants
 
 namespace Edzed.FsmTimer
@@ -139,7 +141,7 @@ theorem start_timer_by_effective_duration (c : Cfg) (s : St) (q : String) (tev :
     (effDur c q item = .none → startTimer c s q tev item = s.fail .circuitError) ∧
     (effDur c q item = .bad → startTimer c s q tev item = s.fail .valueError) ∧
     (effDur c q item = .inf → startTimer c s q tev item = s) ∧
-    (∀ n, effDur c q item = .us n → n ≤ 0 → startTimer c s q tev item = (post c s tev {}).1) ∧
+    (∀ n, effDur c q item = .us n → n ≤ 0 → startTimer c s q tev item = (eventRec c s tev {}).1) ∧
     (∀ n, effDur c q item = .us n → 0 < n → s.stopped = false → live s = [] →
       live (startTimer c s q tev item) =
         [{ id := s.nextId, when := s.now + n.toNat, ev := tev, epoch := s.epoch }]) := by
@@ -270,3 +272,324 @@ example :
     (fires s.log).map (fun x => (x.1, x.2.1.id)) = [(2500000, 1)] := by decide +kernel
 
 end Edzed.FsmTimer
+
+/-! ## Tie by translation: `FSM._ctx_event`
+
+`Gen.TrM.ctxEvent` is the Lean program that tools/py2lean_fsm.py generates from the CURRENT source of
+`FSM._ctx_event` (statement order, conditions, early returns, raises, `try … finally`, the chain loop with
+`continue` / `break` / `else:`, the arguments of every call).  Everything the method calls or looks up is a
+field of `FsmPrims`; `TrTie.prims c` (EdzedProofs/FsmTie.lean) instantiates these fields with the
+operations of the model.  The theorems say that the translated method, run on the model's operations,
+computes exactly the model's `ctxEvent` (event from outside) and `post` (recursive call while
+`_fsm_event_active`).  A semantic edit of the method changes the generated program and these theorems stop
+compiling. -/
+
+namespace Edzed.TrTie
+open Edzed.FsmTimer Edzed.Gen.TrM
+
+/-- how the `try:` block of `_ctx_event` ends, in terms of the model's `enterLoop` -/
+def TryPost (sM : St) (r : (TSt × Loc TEvent EvData String) × Flow ErrKind Bool) : Prop :=
+  ∃ loc' st', r.1 = (T st', loc') ∧
+    ((r.2 = Flow.ret true ∧ st' = sM ∧ sM.failed = none) ∨
+     (∃ k, r.2 = Flow.raise k ∧ st'.fail k = sM ∧ sM.failed = some k ∧
+       (k = .unknownEvent → st'.failed ≠ none)))
+
+theorem translated_post_is_model (c : Cfg) (s : St) (e : TEvent) (d : EvData) (en : Bool)
+    (hf : s.failed = none) :
+    outcomePost (Gen.TrM.ctxEvent (prims c) e d ⟨s, true, en⟩) = post c s e d := by
+  cases e with
+  | goto q =>
+    unfold Gen.TrM.ctxEvent ctxEventBody
+    by_cases hq : q ∈ c.tbl.states
+    · cases hn : s.next <;> tsimp [outcomePost, post, resolve, hq, hf, hn]
+    · tsimp [outcomePost, post, resolve, hq, hf]
+  | ev n =>
+    by_cases hev : n ∈ c.tbl.events
+    rotate_left
+    · unfold Gen.TrM.ctxEvent ctxEventBody
+      tsimp [outcomePost, post, resolve, hev, hf]
+    · cases hst : s.state with
+      | none =>
+        unfold Gen.TrM.ctxEvent ctxEventBody
+        tsimp [outcomePost, post, resolve, hev, hf, hst]
+      | some cur =>
+        -- the target found by the model's lookup
+        have key : ∀ (o : Option String), Table.lookup c.tbl n cur = o →
+            outcomePost (Gen.TrM.ctxEvent (prims c) (.ev n) d ⟨s, true, en⟩) = post c s (.ev n) d := by
+          intro o ho
+          unfold Gen.TrM.ctxEvent ctxEventBody
+          unfold Table.lookup at ho
+          cases h1 : c.tbl.lookupKey n (some cur) <;>
+            cases h0 : c.tbl.lookupKey n none <;>
+            simp only [h1, h0, Option.getD] at ho
+          all_goals
+            cases o with
+            | none =>
+              cases ho <;> tsimp [outcomePost, post, resolve, hev, hf, hst, Table.lookup, h1, h0]
+            | some q =>
+              cases ho <;>
+              cases hu : s.out.isUndef with
+              | true =>
+                cases hn : s.next <;>
+                  tsimp [outcomePost, post, resolve, hev, hf, hst, Table.lookup, h1, h0, hu, hn]
+              | false =>
+                cases hc : evalConds (setCtx s d) d (c.condsOf n) with
+                | none => tsimp [outcomePost, post, resolve, hev, hf, hst, Table.lookup, h1, h0, hu, hc]
+                | some r =>
+                  obtain ⟨s', ok⟩ := r
+                  have kp := evalConds_keeps d (c.condsOf n) _ _ _ hc
+                  cases ok <;> cases hn : s'.next <;>
+                    tsimp [outcomePost, post, resolve, hev, hf, hst, Table.lookup, h1, h0, hu, hc, hn, kp.2]
+        exact key _ rfl
+
+/-- one round of the translated loop = `popNext` + `enterState` of the model -/
+theorem translated_round (c : Cfg) (s : St) (loc : Loc TEvent EvData String) (q : String)
+    (hf : s.failed = none) (hq : s.next = none → loc.v3 = some q) :
+    ∃ loc', ((ctxEventLoop0 (prims c) (T s, loc)).1 =
+        (T (enterState c (popNext s loc.v1 q).1 (popNext s loc.v1 q).2.1 (popNext s loc.v1 q).2.2), loc') ∧
+      RoundEnds (enterState c (popNext s loc.v1 q).1 (popNext s loc.v1 q).2.1 (popNext s loc.v1 q).2.2)
+        (ctxEventLoop0 (prims c) (T s, loc)).2)
+      ∧ loc'.v1 = (popNext s loc.v1 q).2.1 ∧ loc'.v3 = some (popNext s loc.v1 q).2.2 := by
+  unfold ctxEventLoop0
+  cases hn : s.next with
+  | none =>
+    have hq' := hq hn
+    obtain ⟨v0, v1, v2, v3⟩ := loc
+    simp only at hq'
+    subst hq'
+    refine ⟨⟨v0, v1, v2, some q⟩, ?_, by simp [popNext, hn], by simp [popNext, hn]⟩
+    tsimp [T, hn, popNext, enterState, RoundEnds]
+    round_tail (runEnter c (s.enter q) q) q (v1.dur)
+  | some x =>
+    obtain ⟨e', d', q'⟩ := x
+    refine ⟨{ loc with v0 := e', v1 := d', v3 := some q' }, ?_, by simp [popNext, hn], by simp [popNext, hn]⟩
+    cases hs : s.state with
+    | none =>
+      tsimp [T, hn, hf, hs, popNext, enterState, exitCur, RoundEnds]
+      round_tail (runEnter c ((setCtx (s.setNextEv none) d').enter q') q') q' (d'.dur)
+    | some cur =>
+      tsimp [T, hn, hf, hs, popNext, enterState, exitCur, RoundEnds]
+      round_tail (runEnter c (((setCtx (s.setNextEv none) d').emit (Entry.exit cur d')).enter q') q') q' (d'.dur)
+
+/-- the translated `for _ in range(chainlimit): … else: raise …` = the loop of the model -/
+theorem translated_loop (c : Cfg) : ∀ (n : Nat) (s : St) (loc : Loc TEvent EvData String) (q : String),
+    s.failed = none → (s.next = none → loc.v3 = some q) →
+    ∃ loc' st' fl,
+      forRange (ctxEventLoop0 (prims c)) (Gen.TrM.raise ((prims c).exc "EdzedCircuitError")) n (T s, loc)
+        = ((T st', loc'), fl) ∧
+      ((loopB c n s loc.v1 q = (st', true) ∧ fl = Flow.next ∧ st'.failed = none) ∨
+       (∃ k, fl = Flow.raise k ∧ loopB c n s loc.v1 q = (st'.fail k, false) ∧ (st'.fail k).failed = some k ∧
+         (k = .unknownEvent → st'.failed ≠ none))) := by
+  intro n
+  induction n with
+  | zero =>
+    intro s loc q hf _
+    exact ⟨loc, s, Flow.raise .circuitError, by simp [forRange, Gen.TrM.raise, prims_exc, excOf],
+      .inr ⟨.circuitError, rfl, by simp [loopB], by simp [St.fail, hf], by simp⟩⟩
+  | succ n ih =>
+    intro s loc q hf hq
+    obtain ⟨loc1, ⟨hst, hends⟩, hv1, hv3⟩ := translated_round c s loc q hf hq
+    unfold forRange loopB
+    dsimp only
+    generalize ctxEventLoop0 (prims c) (T s, loc) = r at hst hends ⊢
+    obtain ⟨sl1, fl1⟩ := r
+    simp only at hst hends
+    subst hst
+    generalize enterState c (popNext s loc.v1 q).1 (popNext s loc.v1 q).2.1 (popNext s loc.v1 q).2.2 = s2 at hends ⊢
+    unfold RoundEnds at hends
+    cases hf2 : s2.failed with
+    | some k =>
+      simp only [hf2] at hends
+      subst hends
+      exact ⟨loc1, s2, Flow.raise k, by simp, .inr ⟨k, rfl, by simp [hf2, fail_of_failed s2 k hf2],
+        by rw [fail_of_failed s2 k hf2]; exact hf2, fun _ => by simp [hf2]⟩⟩
+    | none =>
+      cases hn2 : s2.next with
+      | some x =>
+        simp only [hf2, hn2, Option.isSome_some, if_true] at hends
+        obtain ⟨loc', st', fl, heq, hres⟩ := ih s2 loc1 (popNext s loc.v1 q).2.2 hf2
+          (fun h => by rw [hn2] at h; cases h)
+        refine ⟨loc', st', fl, by rcases hends with h | h <;> subst h <;> simp [heq], ?_⟩
+        rw [hv1] at hres
+        simpa [hf2, hn2] using hres
+      | none =>
+        simp only [hf2, hn2, Option.isSome_none, Bool.false_eq_true, if_false] at hends
+        subst hends
+        exact ⟨loc1, s2, Flow.next, by simp, .inl ⟨by simp [hf2, hn2], rfl, hf2⟩⟩
+
+theorem translated_try (c : Cfg) (s1 : St) (loc : Loc TEvent EvData String) (q : String)
+    (hf : s1.failed = none) (hn : s1.next = none) (hq : loc.v3 = some q)
+    (hinit : s1.out.isUndef = false → s1.state ≠ none) :
+    TryPost (enterLoop c c.tbl.chainLimit (leave s1) loc.v1 q) (ctxEventTry0 (prims c) (T s1, loc)) := by
+  unfold ctxEventTry0
+  -- exit action, on_exit events, _stop_timer
+  refine seq_elim (sl1 := (T (leave s1), loc)) ?_ ?_
+  · cases hu : s1.out.isUndef with
+    | true => tsimp [T, leave, hu]
+    | false =>
+      cases hs : s1.state with
+      | none => exact absurd hs (hinit hu)
+      | some cur => tsimp [T, leave, hu, hs, hf, (stopTimer_fields _).1]
+  -- assert self._next_event is None
+  refine seq_elim (sl1 := (T (leave s1), loc)) ?_ ?_
+  · tsimp [T, (leave_fields s1).2, hn]
+  -- the loop
+  obtain ⟨loc', st', fl, hloop, hres⟩ := translated_loop c c.tbl.chainLimit (leave s1) loc q
+    (by rw [(leave_fields s1).1]; exact hf) (fun _ => hq)
+  have hforN : ∀ (body orelse : Stmt (TSt × Loc TEvent EvData String) ErrKind Bool), forN (fun sl => (prims c).chainLimit sl.1) body orelse (T (leave s1), loc)
+      = forRange body orelse c.tbl.chainLimit (T (leave s1), loc) := fun _ _ => rfl
+  rw [enterLoop_eq_loopB]
+  rcases hres with ⟨hB, hfl, hnf⟩ | ⟨k, hfl, hB, hk, hu⟩
+  · -- the loop ended with `break`: output and on_enter events
+    subst hfl
+    refine seq_elim (sl1 := (T st', loc')) (by rw [hforN]; exact hloop) ?_
+    rw [hB]
+    simp only [finish]
+    cases hco : calcOutput c st' with
+    | none =>
+      dsimp only
+      refine ⟨loc', st', by tsimp [T, hco], .inr ⟨.keyError, by tsimp [T, hco], rfl, by simp [St.fail, hnf], by simp⟩⟩
+    | some v =>
+      have hfin : (sendOnEnter (setOut st' v)).failed = none := by
+        rw [sendOnEnter_failed, setOut_failed]; exact hnf
+      dsimp only
+      cases huv : v.isUndef with
+      | true =>
+        rw [setOut_undef st' v huv] at hfin ⊢
+        exact ⟨loc', _, by tsimp [T, hco, huv, hfin, hnf], .inl ⟨by tsimp [T, hco, huv, hfin, hnf], rfl, hfin⟩⟩
+      | false =>
+        have h1 : (setOut st' v).failed = none := by rw [setOut_failed]; exact hnf
+        exact ⟨loc', _, by tsimp [T, hco, huv, hfin, h1], .inl ⟨by tsimp [T, hco, huv, hfin, h1], rfl, hfin⟩⟩
+  · subst hfl
+    rw [seq_stop (sl1 := (T st', loc')) (f := Flow.raise k) (by rw [hforN]; exact hloop) (by simp), hB]
+    exact ⟨loc', st', rfl, .inr ⟨k, rfl, rfl, hk, hu⟩⟩
+
+/-- **the tie**: `FSM._ctx_event`, as translated from the current source, run on the model's
+    operations for an event arriving from outside computes exactly the model's `ctxEvent` -/
+theorem translated_ctx_event_is_model (c : Cfg) (s : St) (e : TEvent) (d : EvData)
+    (hf : s.failed = none) (hn : s.next = none) (hinit : s.out.isUndef = false → s.state ≠ none) :
+    outcome (Gen.TrM.ctxEvent (prims c) e d ⟨s, false, false⟩) = FsmTimer.ctxEvent c s e d := by
+  -- what happens once the target state `q` is known (state `s1`)
+  have tail : ∀ (s1 : St) (q : String), s1.failed = none → s1.next = none →
+      (s1.out.isUndef = false → s1.state ≠ none) →
+      outcome
+        ((ctxEventTry0 (prims c) (T s1, (⟨e, d, d, some q⟩ : Loc TEvent EvData String))).1.1,
+         (ctxEventTry0 (prims c) (T s1, (⟨e, d, d, some q⟩ : Loc TEvent EvData String))).2)
+      = resOf (enterLoop c c.tbl.chainLimit (leave s1) d q) := by
+    intro s1 q hf1 hn1 hi1
+    obtain ⟨loc', st', h1, hd⟩ := translated_try c s1 ⟨e, d, d, some q⟩ q hf1 hn1 rfl hi1
+    generalize ctxEventTry0 (prims c) (T s1, (⟨e, d, d, some q⟩ : Loc TEvent EvData String)) = r at h1 hd ⊢
+    obtain ⟨⟨t', l'⟩, fl⟩ := r
+    simp only [Prod.mk.injEq] at h1
+    obtain ⟨rfl, rfl⟩ := h1
+    rcases hd with ⟨hfl, rfl, hnf⟩ | ⟨k, hfl, hsM, hk, hu⟩
+    · simp only at hfl; subst hfl
+      simp only at hnf
+      simp [outcome, resOf, hnf]
+    · simp only at hfl; subst hfl
+      simp only at hsM hk
+      have hcond : ¬ (k = ErrKind.unknownEvent ∧ st'.failed = none) := fun h => hu h.1 h.2
+      simp [outcome, resOf, hk, hcond, hsM]
+  cases e with
+  | goto q =>
+    unfold Gen.TrM.ctxEvent ctxEventBody
+    by_cases hq : q ∈ c.tbl.states
+    · rw [ctxEvent_target (s1 := setCtx s d) (q := q) (by simp [resolve, hq])]
+      tsimp [outcome, hq, hf, hn]
+      simpa [outcome, T] using tail (setCtx s d) q hf hn hinit
+    · tsimp [outcome, FsmTimer.ctxEvent, resolve, hq, hf]
+  | ev n =>
+    by_cases hev : n ∈ c.tbl.events
+    rotate_left
+    · unfold Gen.TrM.ctxEvent ctxEventBody
+      tsimp [outcome, FsmTimer.ctxEvent, resolve, hev, hf]
+    · cases hst : s.state with
+      | none =>
+        unfold Gen.TrM.ctxEvent ctxEventBody
+        tsimp [outcome, FsmTimer.ctxEvent, resolve, hev, hf, hst]
+      | some cur =>
+        have key : ∀ (o : Option String), Table.lookup c.tbl n cur = o →
+            outcome (Gen.TrM.ctxEvent (prims c) (.ev n) d ⟨s, false, false⟩)
+              = FsmTimer.ctxEvent c s (.ev n) d := by
+          intro o ho
+          unfold Table.lookup at ho
+          cases h1 : c.tbl.lookupKey n (some cur) <;>
+            cases h0 : c.tbl.lookupKey n none <;>
+            simp only [h1, h0, Option.getD] at ho
+          all_goals
+            cases o with
+            | none =>
+              unfold Gen.TrM.ctxEvent ctxEventBody
+              cases ho <;> tsimp [outcome, FsmTimer.ctxEvent, resolve, hev, hf, hst, Table.lookup, h1, h0]
+            | some q =>
+              cases ho <;>
+              cases hu : s.out.isUndef with
+              | true =>
+                rw [ctxEvent_target (s1 := setCtx s d) (q := q)
+                  (by simp [resolve, hev, setCtx_proj, hst, Table.lookup, h1, h0, hu])]
+                unfold Gen.TrM.ctxEvent ctxEventBody
+                tsimp [outcome, hev, hf, hst, h1, h0, hu, hn]
+                simpa [outcome, T] using tail (setCtx s d) q hf hn hinit
+              | false =>
+                cases hc : evalConds (setCtx s d) d (c.condsOf n) with
+                | none =>
+                  unfold Gen.TrM.ctxEvent ctxEventBody
+                  tsimp [outcome, FsmTimer.ctxEvent, resolve, hev, hf, hst, Table.lookup, h1, h0, hu, hc]
+                | some r =>
+                  obtain ⟨s', ok⟩ := r
+                  have kp := evalConds_keeps d (c.condsOf n) _ _ _ hc
+                  have kn := evalConds_fields d (c.condsOf n) _ _ _ hc
+                  cases ok with
+                  | false =>
+                    unfold Gen.TrM.ctxEvent ctxEventBody
+                    tsimp [outcome, FsmTimer.ctxEvent, resolve, hev, hf, hst, Table.lookup, h1, h0, hu, hc, kp.2]
+                  | true =>
+                    have hf' : s'.failed = none := by rw [kp.2]; exact hf
+                    have hn' : s'.next = none := by rw [kn.1]; exact hn
+                    have hi' : s'.out.isUndef = false → s'.state ≠ none := by
+                      rw [kp.1, kn.2]; exact hinit
+                    rw [ctxEvent_target (s1 := s') (q := q)
+                      (by simp [resolve, hev, setCtx_proj, hst, Table.lookup, h1, h0, hu, hc])]
+                    unfold Gen.TrM.ctxEvent ctxEventBody
+                    tsimp [outcome, hev, hf, hst, h1, h0, hu, hc, hf', hn']
+                    simpa [outcome, T] using tail s' q hf' hn' hi'
+        exact key _ rfl
+
+/-- non-vacuity: a chained, timed transition evaluated through both.  `go` leads from `a` to `b`, whose
+    entry action sends `Goto c` with a 'duration' item; `c` is a timed state.  The translated method and
+    the model agree, the block ends in `c` with one timer armed from the chained event's duration, and the
+    exit action of the intermediate state `b` read the chained event's data. -/
+def exCfg : Cfg :=
+  { tbl := { states := ["a", "b", "c"], events := ["go", "back"],
+             trans := [("go", some "a", some "b"), ("back", none, some "a")],
+             timed := [("c", .ev "back", .us 500000)], chainLimit := 9 }
+    enterSend := [("b", .goto "c", .us 70000)], initState := "a" }
+
+def exState : St := (deliver exCfg {} (.goto "a") {}).1
+
+example :
+    outcome (Gen.TrM.ctxEvent (prims exCfg) (.ev "go") { dur := .us 3 } ⟨exState, false, false⟩)
+      = FsmTimer.ctxEvent exCfg exState (.ev "go") { dur := .us 3 } ∧
+    (FsmTimer.ctxEvent exCfg exState (.ev "go") { dur := .us 3 }).2 = .ret true ∧
+    (FsmTimer.ctxEvent exCfg exState (.ev "go") { dur := .us 3 }).1.state = some "c" ∧
+    (live (FsmTimer.ctxEvent exCfg exState (.ev "go") { dur := .us 3 }).1).map (fun h => (h.when, h.ev))
+      = [(70000, .ev "back")] ∧
+    (.exit "b" { dur := .us 70000 }) ∈
+      ((FsmTimer.ctxEvent exCfg exState (.ev "go") { dur := .us 3 }).1.log.map (·.2)) := by
+  decide +kernel
+
+/-- … and the recursive call: the entry action's `Goto c` while `_fsm_event_active` -/
+example :
+    outcomePost (Gen.TrM.ctxEvent (prims exCfg) (.goto "c") { dur := .us 70000 } ⟨exState, true, true⟩)
+      = post exCfg exState (.goto "c") { dur := .us 70000 } ∧
+    (post exCfg exState (.goto "c") { dur := .us 70000 }).1.next
+      = some (.goto "c", { dur := .us 70000 }, "c") := by
+  decide +kernel
+
+/-- the hypotheses of `translated_ctx_event_is_model` hold in every state a running simulation can reach -/
+theorem tie_hypotheses_hold_when_reachable (c : Cfg) (ops : List Op)
+    (hf : (run c {} ops).failed = none) :
+    (run c {} ops).next = none ∧ ((run c {} ops).out.isUndef = false → (run c {} ops).state ≠ none) :=
+  quiet_run c ops {} (fun _ => ⟨rfl, fun h => by simp [Val.isUndef] at h⟩) hf
+
+end Edzed.TrTie
